@@ -5,8 +5,8 @@ Lemma phase_back fx w s s' : step_inv fx w s s' -> ph s' = PRun -> ph s = PRun.
 Proof.
   intros [t a e ok a' os ob _ _ _ _ _ _ _ _ _ _ _ (Hph & _) _ _ _|_ _ _ _ _ Hrs|ts _ _ _ _ _ _ (Hph & _) _] Hp.
   - by rewrite <- Hph.
-  - destruct Hrs as [o rest Hp0 _ _ _ Hp' _ _ _|t rest _ Hp0 _ _ Hp' _ _ _|t act rest _ Hp0 _ _ Hp' _ _ _ _ _
-                    |t act rest _ Hp0 _ _ Hp' _ _ _ _ _|_ Hp0 _ _ _ Hp' _ _ _ _|_ Hp0 _ _ _ Hp' _ _ _ _
+  - destruct Hrs as [pre o rest Hp0 _ _ _ Hp' _ _ _|pre t rest _ Hp0 _ _ Hp' _ _ _|pre t act rest _ Hp0 _ _ Hp' _ _ _ _ _
+                    |pre t act rest _ Hp0 _ _ Hp' _ _ _ _ _|_ Hp0 _ _ _ Hp' _ _ _ _|_ Hp0 _ _ _ Hp' _ _ _ _
                     |_ Hp' _ _ _ _|_ _ Hp' _ _ _ _|st0 Hp0 _ Hp' _ _ _ _]; try done; try congruence.
   - by rewrite <- Hph.
 Qed.
